@@ -69,6 +69,7 @@ sj::Value plan_to_json(const Plan &p) {
   v.set("compare_canonical", sj::Value::Int(p.compare_canonical));
   v.set("static_init_throw", sj::Value::Int(p.static_init_throw));
   v.set("deep", sj::Value::Int(p.deep));
+  v.set("cold_check", sj::Value::Int(p.cold_check));
   return v;
 }
 
@@ -128,6 +129,7 @@ bool plan_from_json(const sj::Value &v, Plan &p, std::string &err) {
   p.compare_canonical = (int)v.geti("compare_canonical");
   p.static_init_throw = (int)v.geti("static_init_throw");
   p.deep = (int)v.geti("deep");
+  p.cold_check = (int)v.geti("cold_check");
   return true;
 }
 
@@ -153,8 +155,8 @@ const W kHist[] = {
     {OP_P_ISCALE, 4}, {OP_P_IDIV, 3}, {OP_P_LINCOMB, 4}, {OP_P_EVAL, 4}, {OP_P_FRONTBACK, 1},
     {OP_P_ISZERO, 1}, {OP_P_OVERLAP, 1}, {OP_P_EQ, 1},
     {OP_O_APPLY, 6}, {OP_O_BILIN, 3}, {OP_O_LIN, 2}, {OP_O_HOLD, 2}, {OP_O_HELD_APPLY, 3},
-    {OP_O_HELD_COPY, 1}, {OP_O_DROP, 1},
-    {OP_N_NEW, 2}, {OP_N_BAD, 1}, {OP_N_GEN, 3}, {OP_N_COPY, 1}, {OP_N_DROP, 1},
+    {OP_O_HELD_COPY, 1}, {OP_O_DROP, 1}, {OP_O_SH_APPLY, 2}, {OP_O_SH_BILIN, 1}, {OP_O_SH_LIN, 1},
+    {OP_N_NEW, 2}, {OP_N_BAD, 1}, {OP_N_GEN, 3}, {OP_N_COPY, 1}, {OP_N_ASSIGN, 2}, {OP_N_DROP, 1},
     {OP_I_INTERP, 2}, {OP_Q_NUMINT, 1}, {OP_X_PIN, 4}};
 const W kArith[] = {
     {OP_S_NEW, 3}, {OP_S_EMPTY, 1}, {OP_S_WHOLE, 1},
@@ -166,7 +168,7 @@ const W kXgrid[] = {
     {OP_G_NEW, 5}, {OP_G_COPY, 1}, {OP_S_NEW, 5}, {OP_S_WHOLE, 1}, {OP_S_EMPTY, 1},
     {OP_P_NEW, 9}, {OP_P_EMPTY, 2}, {OP_P_COPY, 1},
     {OP_P_ADD, 5}, {OP_P_SUB, 4}, {OP_P_MUL, 5}, {OP_P_IADD, 5}, {OP_P_ISUB, 4}, {OP_P_LINCOMB, 6},
-    {OP_O_APPLY, 7}, {OP_O_BILIN, 7}, {OP_O_LIN, 4}, {OP_O_HOLD, 3}, {OP_O_HELD_APPLY, 4},
+    {OP_O_APPLY, 7}, {OP_O_BILIN, 7}, {OP_O_LIN, 4}, {OP_O_HOLD, 3}, {OP_O_HELD_APPLY, 4}, {OP_O_SH_APPLY, 2}, {OP_O_SH_BILIN, 2}, {OP_O_SH_LIN, 1},
     {OP_N_NEW, 4}, {OP_N_GEN, 2}, {OP_Q_NUMINT, 4}, {OP_S_UNION, 1}, {OP_S_INTERSECT, 1}, {OP_P_EVAL, 1}, {OP_X_PIN, 3}};
 const W kConc[] = {
     {OP_G_COPY, 3}, {OP_G_DROP, 2}, {OP_G_QUERY, 1}, {OP_G_EQ, 2},
@@ -177,8 +179,8 @@ const W kConc[] = {
     {OP_P_NEG, 1}, {OP_P_ISCALE, 1}, {OP_P_LINCOMB, 3}, {OP_P_EVAL, 8}, {OP_P_FRONTBACK, 1},
     {OP_P_ISZERO, 6}, {OP_P_OVERLAP, 2}, {OP_P_EQ, 2},
     {OP_O_APPLY, 6}, {OP_O_BILIN, 5}, {OP_O_LIN, 3}, {OP_O_HOLD, 1}, {OP_O_HELD_APPLY, 4},
-    {OP_O_HELD_COPY, 2}, {OP_O_DROP, 1},
-    {OP_N_GEN, 4}, {OP_N_COPY, 2}, {OP_N_DROP, 1}, {OP_N_NEW, 1}, {OP_I_INTERP, 1}, {OP_Q_NUMINT, 1}, {OP_X_PIN, 6}};
+    {OP_O_HELD_COPY, 2}, {OP_O_DROP, 1}, {OP_O_SH_APPLY, 6}, {OP_O_SH_BILIN, 5}, {OP_O_SH_LIN, 3},
+    {OP_N_GEN, 4}, {OP_N_COPY, 2}, {OP_N_ASSIGN, 1}, {OP_N_DROP, 1}, {OP_N_NEW, 1}, {OP_I_INTERP, 1}, {OP_Q_NUMINT, 1}, {OP_X_PIN, 6}};
 
 template <size_t N>
 int draw(sim::Rng &r, const W (&tab)[N], const std::vector<bool> &enabled) {
@@ -292,6 +294,7 @@ Plan make_plan(const Profile &prof, uint64_t seed) {
   p.setup.push_back(mk(r.below(3) ? OP_P_NEW : OP_P_EMPTY, 5, r.below(4), r.below(MAXORD + 1), r.below(1u << 16)));
   p.setup.push_back(mk(OP_O_HOLD, 0, r.below(6)));
   p.setup.push_back(mk(OP_O_HOLD, 1, r.below(6)));
+  p.setup.push_back(mk(OP_O_SH_BUILD, r.below(64), r.below(64), r.below(64), r.below(1u << 16)));
   {
     std::vector<bool> all(OP_NKINDS, true);
     int extra = r.range(0, 4);
@@ -392,6 +395,13 @@ Plan make_plan(const Profile &prof, uint64_t seed) {
     p.sweep_cap = prof.thorough ? 64 : 24;
   }
   p.deep = (prof.check == "C14" || prof.check == "C10") ? 1 : (prof.check == "C09" ? (int)r.below(2) : 0);
+  // a quarter of the C14 worlds run cold: snapshots without evaluations, and the
+  // history-independence oracle only once, at the end of every task (an oracle
+  // that evaluates before every operation fills - correctly - whatever lazy
+  // evaluation state the library keeps, and so hides a fill that goes wrong
+  // only when it is the *first* one and a fault hits it)
+  if (prof.check == "C14" && r.below(4) == 0) p.deep = 0;
+  p.cold_check = (prof.check == "C14" || prof.check == "C09") && !p.deep;
   return p;
 }
 
